@@ -18,12 +18,28 @@ macro_rules! dispatch {
             "C17" => runner::$f(&props::c17::C17, $($arg),*),
             "C18" => runner::$f(&props::c18::C18, $($arg),*),
             "C19" => runner::$f(&props::c19::C19, $($arg),*),
+            "C20" => runner::$f(&props::c20::C20, $($arg),*),
             _ => { eprintln!("HARNESS-ERROR: no check for property {}", $id); 2 }
         }
     };
 }
 
+/// Process-wide lazies (regexes, tables) are initialised here, on the main thread, so that no simulation
+/// thread ever pays for them (the first run of a process must be indistinguishable from any other).
+fn warmup() {
+    let _ = ommx::ocipkg::Digest::new("sha256:00");
+    let _ = ommx::ocipkg::ImageName::parse("ghcr.io/jij-inc/ommx/warmup:tag");
+    let _ = ommx::artifact::media_types::v1_instance();
+    let _: Result<serde_json::Value, _> = serde_json::from_str("{\"a\":[1,2.5,null]}");
+    let _ = chrono::DateTime::parse_from_rfc3339("2024-01-01T00:00:00+09:00");
+}
+
 fn main() {
+    // the time zone is process configuration (C20 compares instants); pinned unless the caller chose one
+    if std::env::var_os("TZ").is_none() {
+        std::env::set_var("TZ", "America/St_Johns");
+    }
+    warmup();
     runner::install_panic_hook();
     let args: Vec<String> = std::env::args().skip(1).collect();
     if args.is_empty() {
